@@ -12,6 +12,8 @@ CONSTANTS Family = "bsc"
           MaxStored = 4
           MaxLen = 5
           EmitOn = TRUE
+          Sprint = 0
+          SpanEnd = 0
           TwoBranch = FALSE
           TraceLen = 0
 VIEW View
